@@ -138,15 +138,16 @@ public:
     {
         using std::abs;
 
+        // Verify the initial vector before anything is modified, so that a rejected
+        // call leaves the existing factorization intact
+        const RealScalar v0norm = m_op.norm(v0);
+        if (v0norm < m_near_0)
+            throw std::invalid_argument("initial residual vector cannot be zero");
+
         m_fac_V.resize(m_n, m_m);
         m_fac_H.resize(m_m, m_m);
         m_fac_f.resize(m_n);
         m_fac_H.setZero();
-
-        // Verify the initial vector
-        const RealScalar v0norm = m_op.norm(v0);
-        if (v0norm < m_near_0)
-            throw std::invalid_argument("initial residual vector cannot be zero");
 
         // Points to the first column of V
         MapVec v(m_fac_V.data(), m_n);
